@@ -133,7 +133,9 @@ MC_ExportMenu ==
       [] ExpMenu = "ctxsweep" -> {<<Leaf("ectxL" \o ToString(n), n), L>> : n \in SweepFrom..SweepTo, L \in {32, 2 * NhC + 1}}
       \* ... and around every power of two up to 2^16 (a scratch buffer of some "round" size)
       [] ExpMenu = "ctxpow2" -> {<<Leaf("ectxL" \o ToString(n), n), L>> : L \in {32, 2 * NhC + 1},
-                                   n \in UNION {{p - 2, p - 1, p, p + 1, p + 2} : p \in {1024, 2048, 4096, 8192, 16384, 32768, 65536}}}
+                                   \* (and 22 bytes below: the hashed string has 2 + 7 + 10 + 3 bytes of header)
+                                   n \in UNION {{p - 2, p - 1, p, p + 1, p + 2, p - 23, p - 22, p - 21} :
+                                                p \in {1024, 2048, 4096, 8192, 16384, 32768, 65536}}}
 
 NoSetups(x) == {}
 NoSetups2(x, y) == {}
